@@ -6,6 +6,7 @@ From BT Require Import Base.Util Model.FileView Model.Chunker Model.Indexer.
 From BT Require Import Proofs.FileViewSim Proofs.ChunkerPartition Proofs.IndexerGrouped Proofs.IndexerViews.
 From BT Require Import Proofs.SliceStreams Proofs.SliceStreamsIndex.
 From BT Require Model.BBIFile Model.BigWigWrite Model.Accept Proofs.SliceStreamsAccept.
+From BT Require Base.Float Model.BedStats Proofs.BedStatsRows Proofs.SliceStreamsStats.
 Local Open Scope N_scope.
 
 (* ------------------------------------------------------------------ FileView *)
@@ -293,6 +294,26 @@ Theorem C18_chunks_cut_at_lines : forall (file : list N) (n : N) (cs : list (N *
   Forall (fun c => c = [] \/ exists c', c = c' ++ [NL]) (removelast pieces).
 Proof. exact chunks_cut_at_lines. Qed.
 Print Assumptions C18_chunks_cut_at_lines.
+
+(* Composition with C17's model of bigwigaverageoverbed -t N (Model/BedStats.v: avg_parallel over byte
+   chunks, each split into lines by C17's own copy of split_lines): for the pieces the chunker returns,
+   the lines the per-piece readers deliver are the lines C17's model processes per chunk, the pieces meet
+   [cuts_at_lines], hence the parallel path equals the one-chunk path on the whole file for every outcome
+   (C17_chunking_irrelevant) and returns the serial output whenever the serial path returns one
+   (C17_chunked_eq_serial) - for every rounding mode, query function, name mode. *)
+Theorem C18_chunks_feed_C17 : forall (fp : Float.fpmode)
+    (q : BBIFile.name -> N -> N -> res (list BigWigWrite.value)) (m : BedStats.name_mode) (minmax : bool)
+    (file : list N) (n : N) (cs : list (N * N)) (sz : nat -> nat -> N) (fuel : nat),
+  split_file_into_chunks_by_size file n = Ok cs ->
+  Nlen file < 2 ^ 63 -> (forall i k, 1 <= sz i k) -> (length file < fuel)%nat ->
+  let pieces := map (fun ab => range file (fst ab) (snd ab)) cs in
+  concat pieces = file /\ BedStatsRows.cuts_at_lines pieces /\
+  chunk_streams fuel file sz cs = map (fun c => Ok (BedStats.split_lines c)) pieces /\
+  BedStats.avg_parallel fp q m minmax pieces = BedStats.avg_chunk fp q m minmax file /\
+  (forall out, BedStats.avg_serial fp q m minmax file = Ok out ->
+               BedStats.avg_parallel fp q m minmax pieces = Ok out).
+Proof. exact SliceStreamsStats.chunks_feed_avg. Qed.
+Print Assumptions C18_chunks_feed_C17.
 
 (* ------------------------------------------------------------------ (2) continued: C13's parallel source *)
 (* Composition with C13's model of the parallel source (Model/Accept.v).  The indexer's parse_line is
